@@ -1,6 +1,7 @@
 import CC.Lemmas.Prims
 import CC.Lemmas.Refresh
 import CC.Lemmas.Rev
+import CC.Lemmas.Rotation
 /-! # C04 — key rotation: refreshed keys follow the master key, stale keys fall behind -/
 
 namespace CC.Props.C04
@@ -16,58 +17,8 @@ theorem revisions_cover (chains : RevVec) (x : Right × Sk) :
 carries a token the generator had not handed out before -/
 theorem rekeyLoop_fresh (secrets : RevMap) (rights : List Right) (n : Rng) (r : Right) (hr : r ∈ rights)
     (hall : ∀ r ∈ rights, (secrets.getLatest r).isSome) :
-    ∃ act sk, (rekeyLoop secrets rights n).2.1.getLatest r = some (act, sk) ∧ n ≤ sk.tok := by
-  induction rights generalizing secrets n with
-  | nil => cases hr
-  | cons x xs ih =>
-    unfold rekeyLoop
-    have hx := hall x List.mem_cons_self
-    have hc : secrets.containsKey x = true := by
-      unfold RevMap.containsKey; unfold RevMap.getLatest at hx
-      cases hl : secrets.lookup x with
-      | none => simp [hl] at hx
-      | some _ => rfl
-    simp only [hc, if_true]
-    cases hl : secrets.getLatest x with
-    | none => simp [hl] at hx
-    | some v =>
-      obtain ⟨act, sk⟩ := v
-      simp only
-      have hall' : ∀ r ∈ xs, ((secrets.insert x (act, ⟨n, sk.hyb⟩)).getLatest r).isSome := by
-        intro r' hr'
-        rw [RevMap.getLatest_insert]
-        by_cases hk : r' == x
-        · simp [hk]
-        · simp only [hk]; exact hall r' (List.mem_cons_of_mem _ hr')
-      by_cases hin : r ∈ xs
-      · obtain ⟨a, s, h1, h2⟩ := ih (secrets.insert x (act, ⟨n, sk.hyb⟩)) (n + 1) hin hall'
-        exact ⟨a, s, h1, Nat.le_of_succ_le h2⟩
-      · have hrx : r = x := by
-          rcases List.mem_cons.1 hr with h | h
-          · exact h
-          · exact absurd h hin
-        subst hrx
-        -- the remaining rights do not touch `r`: its newest secret is the one just inserted
-        have hstable : ∀ (s : RevMap) (m : Rng), r ∉ xs → (rekeyLoop s xs m).2.1.getLatest r = s.getLatest r := by
-          intro s m hnin
-          clear ih hall' hall hr hin
-          induction xs generalizing s m with
-          | nil => rfl
-          | cons y ys ihy =>
-            simp only [List.mem_cons, not_or] at hnin
-            unfold rekeyLoop
-            split
-            · cases hy : s.getLatest y with
-              | none => rfl
-              | some w =>
-                obtain ⟨a, k⟩ := w
-                simp only
-                rw [ihy _ _ hnin.2, RevMap.getLatest_insert]
-                have : (r == y) = false := by simpa using hnin.1
-                simp [this]
-            · rfl
-        rw [hstable _ _ hin, RevMap.getLatest_insert]
-        exact ⟨act, ⟨n, sk.hyb⟩, by simp, Nat.le_refl _⟩
+    ∃ act sk, (rekeyLoop secrets rights n).2.1.getLatest r = some (act, sk) ∧ n ≤ sk.tok :=
+  rekeyLoop_fresh' secrets rights n r hr hall
 
 /-- a key whose secrets were all issued before a rotation cannot open an encapsulation whose
 components were all made for secrets created by that rotation (stale keys fall behind) -/
@@ -98,6 +49,46 @@ theorem refresh_keep_closed_form (log : List Sk) (hnd : log.Nodup) (k i j : Nat)
     refreshChain (log.take k) ((log.drop i).take j) =
       some (if i < k then log.take (min k (i + j)) else log.take k) :=
   refreshChain_spec log hnd k i j hk hj hij
+
+/-- **Stale keys fall behind, over every history.** In any reachable world, after a successful rekey
+of some rights, an encapsulation made under the new public key for rights that were all rekeyed
+cannot be opened by any key all of whose secrets were drawn before the rekey (every key issued
+earlier and not refreshed since). -/
+theorem stale_key_after_rekey (w : World) (hw : Reachable w) (rights : List Right)
+    (hok : (rekey w.msk rights w.rng).1 = .ok ()) (re : List Right) (hsub : ∀ r ∈ re, r ∈ rights)
+    (n' : Rng) (s : Nat) (x : XEnc) (hen : (encaps (rekey w.msk rights w.rng).2.1.mpk re n').1 = .ok (s, x))
+    (usk : Usk) (hold : ∀ r c, (r, c) ∈ usk.secrets → ∀ k ∈ c, k.tok < w.rng) : decaps usk x = none := by
+  apply stale_cannot_open usk x w.rng hold
+  -- every component of `x` was made for the published key of a rekeyed right
+  unfold encaps at hen
+  cases hs : (rekey w.msk rights w.rng).2.1.mpk.selectSubkeys re with
+  | error e => simp [hs] at hen
+  | ok v =>
+    obtain ⟨hyb, ks⟩ := v
+    simp only [hs, Except.ok.injEq, Prod.mk.injEq] at hen
+    obtain ⟨_, rfl⟩ := hen
+    unfold Mpk.selectSubkeys at hs
+    cases hm : mapMExcept (rekey w.msk rights w.rng).2.1.mpk.keyOf re with
+    | error e => simp [hm] at hs
+    | ok ks' =>
+      simp only [hm, Except.ok.injEq, Prod.mk.injEq] at hs
+      obtain ⟨_, rfl⟩ := hs
+      intro t ht
+      obtain ⟨r, hr, hk⟩ := (mapMExcept_mem _ re ks' hm t).1 ht
+      exact rekey_published_fresh w.msk rights w.rng (reachable_inv w hw) hok r (hsub r hr) t hk
+
+/-- **Refreshed keys follow the master key, over every history.** In any reachable world, after a
+successful refresh with either flag, every right the key keeps has a chain made only of current
+master secrets of that right and starting with the master's newest one — so the refreshed key
+opens an encapsulation made under the current public key for any right it keeps. -/
+theorem refreshed_key_follows (w : World) (hw : Reachable w) (usk : Usk) (keep : Bool)
+    (hok : (refresh w.msk usk keep w.rng).1 = .ok ()) :
+    ∀ r c, (r, c) ∈ (refresh w.msk usk keep w.rng).2.2.1.secrets →
+      ∃ mchain, w.msk.secrets.lookup r = some mchain ∧ (∀ k ∈ c, k ∈ mchain.map (·.2)) ∧
+        c.head? = (mchain.map (·.2)).head? :=
+  fun r c hm =>
+    let ⟨mchain, h1, h2, h3, _⟩ := refresh_secrets_spec w.msk usk keep w.rng (reachable_nonEmpty w hw) hok r c hm
+    ⟨mchain, h1, h2, h3⟩
 
 /-- non-vacuity: log [9,7,5,3]; master holds all four; the user held [5,3] -/
 example : refreshChain [⟨9, false⟩, ⟨7, false⟩, ⟨5, false⟩, ⟨3, false⟩] [⟨5, false⟩, ⟨3, false⟩] =
